@@ -67,7 +67,10 @@ def fresh_locals(func):
 def _is_fresh(v, fresh):
     if isinstance(v, (ast.List, ast.Dict, ast.Set, ast.ListComp, ast.DictComp, ast.SetComp, ast.Tuple, ast.Constant)):
         return True
-    if isinstance(v, ast.Call) and isinstance(v.func, ast.Name) and v.func.id in FRESH_CALLS:
+    if isinstance(v, ast.Call) and isinstance(v.func, ast.Name) and v.func.id in FRESH_CALLS | {"deque", "defaultdict", "OrderedDict", "Counter"}:
+        return True
+    if isinstance(v, ast.Call) and isinstance(v.func, ast.Attribute) and norm(v.func) in (
+            "collections.deque", "collections.defaultdict", "collections.OrderedDict", "itertools.chain", "itertools.count"):
         return True
     if isinstance(v, ast.BinOp) and isinstance(v.op, ast.Add):
         return _is_fresh(v.left, fresh) or _is_fresh(v.right, fresh)
@@ -134,7 +137,8 @@ def local_effects(func, typer):
             elif res.kind == "unknown":
                 effects.append(Effect("unknowncall", func, n, "opaque call %s" % norm(f)))
             elif res.kind == "ext":
-                if res.name not in ("re.escape", "six.text_type", "os.path.splitext", "itertools.count", "collections.namedtuple"):
+                if res.name not in ("re.escape", "six.text_type", "os.path.splitext", "collections.namedtuple") and not res.name.startswith(
+                        ("itertools.", "operator.", "collections.", "functools.partial", "math.")):
                     effects.append(Effect("ext", func, n, "stdlib call %s" % res.name))
             elif res.kind == "builtin":
                 if res.name in T.EFFECT_BUILTINS:
